@@ -310,6 +310,11 @@ func (d *DI) symbolValue(r SymRef) (MV, string, error) {
 		return MV{T: n + ".Fn", O: &MO{Pkg: pid, Kind: "Fn", Origin: "fn", Args: []MV{strMV(pid)}}}, "Fn", nil
 	case "ID":
 		return strMV(pid), "string", nil
+	case "c", "s", "rootGontainer":
+		// package-level variables of the fixture that are named like locals of the generated constructor
+		if r.Ptr == "" {
+			return global("Obj", r.Name)
+		}
 	}
 	return MV{}, "", fmt.Errorf("unknown symbol %s", r.Name)
 }
@@ -782,6 +787,9 @@ func (d *DI) construct(name string, def *svcDef, bag map[string]MV) (MV, error) 
 		case "NewFail":
 			d.Counters[pid+".NewFail"]++
 			return MV{}, &diError{"constructor failed in " + pid}
+		case "dependencyService", "dependencyValue", "dependencyTag", "dependencyProvider", "newService", "concatenateChunks",
+			"paramTodo", "getEnv", "getEnvInt", "getParam", "callProvider":
+			kind = "Obj" // fixture constructors that are named like locals of the generated constructor
 		default:
 			return MV{}, ErrUnpredicted
 		}
